@@ -166,6 +166,7 @@ type Enc struct {
 	opaqueSeqs []opaqueSeqAt
 	opaqueReads bool // relational mode: byte readers in contracts are uninterpreted
 	noObl      int
+	autoDepth  int // nesting of automatically inlined contract-less helpers
 	loopDry    int
 	usesLex    bool
 	topName    string
